@@ -219,6 +219,9 @@ def _worker_init(engine_name, hang_s):
 def run_case(engine, case):
     """Execute one case; harness exceptions are reported apart from violations."""
     try:
+        # the machine's time zone is part of the simulated environment, never the host's
+        from qsim.clocks import set_process_zone
+        set_process_zone(case.get("utc_offset_s", 0) if isinstance(case, dict) else 0)
         res = engine.execute(case)
     except HarnessError:
         raise
